@@ -144,7 +144,7 @@ func (e *Exec) globalCell(g *ssa.Global) *Cell {
 var initDeny = []string{"runtime", "internal/", "os", "syscall", "sync", "reflect", "time", "io/fs", "net", "unsafe", "testing", "flag", "log",
 	"math/rand", "crypto/rand", "crypto/internal/", "vendor/", "golang.org/x/sys", "unicode", "fmt", "path", "bufio", "context", "sort", "strings", "bytes",
 	"encoding/json", "encoding/base64", "encoding/hex", "encoding/pem", "encoding/asn1", "crypto/x509", "crypto/tls", "math/big", "crypto/elliptic",
-	"crypto/ecdsa", "crypto/ecdh", "crypto/rsa", "crypto/ed25519", "crypto/aes", "crypto/cipher", "crypto/des", "crypto/dsa", "hash/", "compress/", "iter", "slices", "maps", "cmp", "errors", "io", "strconv", "math", "math/bits", "encoding/binary", "crypto/subtle", "embed"}
+	"crypto/ecdsa", "crypto/ecdh", "crypto/ed25519", "crypto/aes", "crypto/cipher", "crypto/des", "crypto/dsa", "hash/", "compress/", "iter", "slices", "maps", "cmp", "errors", "io", "strconv", "math", "math/bits", "encoding/binary", "crypto/subtle", "embed"}
 
 func (e *Exec) initAllowed(p *ssa.Package) bool {
 	if e.isOwnPkg(p) {
